@@ -316,8 +316,10 @@ impl ProjectGenerator {
     }
 
     /// Add a Rust crate dependency from `import rust::crate_name`
-    /// Uses a default version mapping for common crates, otherwise uses latest
-    pub fn add_rust_crate(&mut self, crate_name: &str) {
+    ///
+    /// Uses a default version mapping for common crates. A crate without a known-good mapping is refused with
+    /// [`UnknownCrateError`]; it is never written to the manifest with a wildcard version.
+    pub fn add_rust_crate(&mut self, crate_name: &str) -> Result<(), UnknownCrateError> {
         // Common crate versions (maintain a mapping of known-good versions)
         let version = match crate_name {
             "serde" => Some(r#"{ version = "1.0", features = ["derive"] }"#.to_string()),
@@ -341,10 +343,16 @@ impl ProjectGenerator {
             "futures" => Some(r#""0.3""#.to_string()),
             "bytes" => Some(r#""1.0""#.to_string()),
             "itertools" => Some(r#""0.12""#.to_string()),
-            // Use latest for unknown crates
+            // No known-good version: refuse (see the module documentation)
             _ => None,
         };
-        self.rust_crate_deps.insert(crate_name.to_string(), version);
+        let Some(version) = version else {
+            return Err(UnknownCrateError {
+                crate_name: crate_name.to_string(),
+            });
+        };
+        self.rust_crate_deps.insert(crate_name.to_string(), Some(version));
+        Ok(())
     }
 
     /// Add a Rust crate with a specific version spec
